@@ -540,7 +540,7 @@ def generate(tier, seed, count=None):
     """returns (rust source, spec list)"""
     cat = base_catalogue()
     if tier == "thorough":
-        cat += random_catalogue(seed, count if count is not None else 300)
+        cat += random_catalogue(seed, count if count is not None else 700)
     else:
         cat += random_catalogue(seed, count if count is not None else 40)
     src = [SUPPORT]
